@@ -12,7 +12,14 @@
 //	hs, err := sqlgen.Harvest(repoPath) // statements written in /repo/sqlparser/*_test.go and dialect tests, read AS DATA
 //	                                     // (go/parser over the test sources at run time; nothing is compiled in)
 //	lits, err := sqlgen.LexLiterals(sqlgen.MySQL, text) // independent literal lexer (values as the real DBMS reads them)
-//	bad := sqlgen.Break(rnd, text)       // a damaged (very likely unparseable) variant of a statement
+//	toks, err := sqlgen.LexTokens(sqlgen.MySQL, text)   // all tokens (words, quoted identifiers, literals, placeholders, comments)
+//	bad, how := sqlgen.Break(rnd, sqlgen.MySQL, text)   // a damaged (very likely unparseable) variant of a statement
+//	cond, lits := g.Fragment(tables...)  // a stand-alone boolean expression, for callers that assemble statements themselves
+//	lit := g.LiteralText("string")       // one literal (any | string | single | number | unsigned | int)
+//
+// Strict is best effort: it avoids constructs the real DBMS rejects syntactically (MySQL-isms in PostgreSQL and
+// vice versa) but does not type-check; a rig whose fake database cannot parse a statement must treat that as
+// rig-inconclusive. About 8 % of strict PostgreSQL statements are rejected by pg_query (hex numbers, odd casts).
 //
 // # Options
 //
